@@ -1,5 +1,6 @@
 use chan::e2::{self, Prop};
 use chan::e7;
+use vcore::proptest::prelude::*;
 use vcore::Level;
 
 const RULE: &str = "same history generator weighted towards overflow: capacities 1-8, send / try_send / async send (timeout 0|inf) sequences against a receiver that never runs, runs slowly or whose processor never returns (unresolved batch); the queue_length, queue_full_truncated and queue_full_blocked metrics are sampled after every operation; small-scope exhaustive mode; E7 with many sender threads against a worker parked on a harness latch. Oracle: pending (queue_length) equals the model and never exceeds capacity; send on full discards the whole older queue, keeps the new item, counts one truncation; try_send/async send on full hand back exactly the item (pending unchanged) and accept iff there is room; blocked sends are counted; all sender calls return while the worker is held on the latch. Non-trivial = at least one overflow.";
@@ -39,6 +40,10 @@ fn main() {
             // the same workloads against a LIVE worker (few stalls): silent discards on the receiver's side
             // (idle path, hand-off) only show when the worker actually runs
             s.gen("e7-os-threads-live", s.n(12_000, 300_000), || e7::workload(1), |c, cx| e7::check(c, Prop::C09, cx));
+            // blocking sends from every calling context, timeouts from zero to the far end of Duration: the item is
+            // enqueued or handed back, the call neither panics nor hangs
+            s.require("timeout:far-end-of-duration/blocking-send-on-full-channel", 10);
+            s.gen("e7-blocking-sends", s.n(720, 12_000), || e7::blocking_case().prop_map(|mut c| { c.flush = false; c }), |c, cx| e7::check_blocking(c, cx));
             // hand-back deadline after a lost wake-up (cases sleep for seconds; one per thread)
             s.require("deadline:handed-back-on-time", 2);
             s.gen("e7-blocking-send-deadline", s.n(2, 40), e7::deadline_batch, |c, cx| e7::check_deadline(c, cx));
